@@ -5,7 +5,7 @@ from ..worlds import batcherworld as bw
 
 PROPERTY = 'C10'
 LEVEL = 'exploration'
-RULE = 'each run = 2..12 calls with unique keys (every call enqueues) at arrival gaps on a dyadic grid around batch_timeout (incl. exact ties, which are not judged), max_batch_size 1-5 (optionally reassigned at a grid instant), max_concurrent_batches 1-3, batch durations 0 .. several batch_timeouts. Oracles over the batches seen by the harness function: non-empty, size <= limit, running executions <= limit at every start, concatenation in start order == arrival order, arrivals < batch_timeout apart share a batch unless full, start <= last arrival + batch_timeout unless all slots were busy. distinct by run digest.'
+RULE = 'each run = 2..12 calls with unique keys (every call enqueues) at arrival gaps on a dyadic grid around batch_timeout (incl. exact ties, which are not judged), max_batch_size 1-5 (optionally reassigned once or twice at grid instants; the limit is then judged where an item joins or where the group is handed over, and not at all for a group a shrink left over-full), max_concurrent_batches 1-3, batch durations 0 .. several batch_timeouts; the batch function is an async generator function or (a quarter of the runs) a plain callable that starts working when called and returns the async iterator; arrivals come from a sequential driver or as one timer per instant registered up front (the other order at exact ties with the timers of the batcher itself). Oracles over the batches seen by the harness function: non-empty, size <= limit, running executions <= limit at every start, concatenation in start order == arrival order, arrivals < batch_timeout apart share a batch unless full, start <= last arrival + batch_timeout unless all slots were busy. distinct by run digest.'
 LEVEL_TEXT = 'Seeded exploration of arrival-time sequences and limits in exact virtual time; the history of batches (contents, start, end) is checked against the stated limits, order and dispatch deadline.'
 LEVEL_NOTE = 'Trusted: as C04; the dispatch deadline is judged only where the concurrency explanation is unambiguous.'
 TECHNIQUE = 'deterministic simulation: virtual-time event loop, arrival-grid exploration, history invariants over batches'
